@@ -98,6 +98,15 @@ class Roles:
         if len(dr) != 1:
             raise AnalysisError(f"view {view}: drain loop (dequeue from _event_queue) not unique: {[f.short for f in dr]}")
         self.drain = dr[0]
+        # re-entrancy flag: the boolean self attribute the drain loop sets True and resets in a finally
+        self.flag = None
+        for n in own_nodes(self.drain.node):
+            if isinstance(n, ast.Assign) and isinstance(n.value, ast.Constant) and n.value.value is True:
+                for t in n.targets:
+                    if isinstance(t, ast.Attribute) and dotted(t.value) == "self":
+                        self.flag = t.attr
+        if self.flag is None:
+            raise AnalysisError(f"view {view}: re-entrancy flag of the drain loop not located")
         # target resolver used by the dispatcher
         self.processing = {f.qualname: f for f in (self.enter, self.exit, self.process_event, self.settle,
                                                   self.executor, self.dispatch, self.done_check)}
